@@ -853,6 +853,13 @@ func (sc *SchedulerCache) AddBindTask(bindContext *agentapi.BindContext) error {
 		return fmt.Errorf("failed to bind Task %v to host %v, host does not exist",
 			task.UID, task.NodeName)
 	}
+	// A NodeInfo without Node object is the placeholder addTask creates for pods seen before
+	// their node: it keeps no resource ledger and NodeInfo.AddTask skips the Binding re-check
+	// for it, so a bind aimed at it would be admitted without any check.
+	if node.info.Node == nil {
+		return fmt.Errorf("failed to bind Task %v to host %v, host is not ready in the cache",
+			task.UID, task.NodeName)
+	}
 
 	originalStatus := task.Status
 	if err := sc.UpdateTaskStatus(task, schedulingapi.Binding); err != nil {
